@@ -337,6 +337,14 @@ class Scenario:
             parts = name.split(":")
             origin = {"a": "origin-a.example.org", "b": "origin-b.example.org"}[parts[1]]
             d = env.acr(host=origin, hbh=hbh, e2e=0x7000 + int(parts[3]), flags=R | P | (T if parts[2] == "1" else 0))
+        elif name.startswith("rh0:"):
+            # hop-by-hop id from the pool, end-to-end id 0 (a legal value)
+            hb = 0x4000 + int(name[4:])
+            answered = {(f.h.hbh, f.h.e2e) for f in s.out if not f.h.is_request}
+            if any(f.h.hbh == hb and (f.h.hbh, f.h.e2e) not in answered for f in s.inreq) or any(f.h.e2e == 0 for x in self.socks for f in x.inreq):
+                s.nreq -= 1
+                return None
+            d = env.acr(host=host, hbh=hb, e2e=0)
         elif name.startswith("rh:"):
             # rh:<hop-by-hop id from a pool>  - the end-to-end id stays unique so that frames can be attributed.
             # Hop-by-hop ids of in-flight requests are connection-unique: not enabled while one with this id is unanswered here.
